@@ -2607,6 +2607,8 @@ class x86_mn(x86_mn_base):
                 if dib in [u08, s08, u16, s16, u32, s32]:
                     if self.admode !=u32:
                         if dib == u32: dib = u16
+                    # relative displacements follow the operand size, not the address size
+                    if self.opmode !=u32:
                         if dib == s32: dib = s16
                     l = struct.calcsize(x86_afs.dict_size[dib])
                     d = struct.unpack(x86_afs.dict_size[dib], bin.readbs(l))[0]
